@@ -571,6 +571,14 @@ func sameModuloNil(a, b any) bool {
 		}
 		return true
 	}
+	if sa, ok := a.(string); ok {
+		if sb, ok := b.(string); ok && sa != sb {
+			// a float written as text (",string"): the spelling of the number may differ
+			fa, ea := strconv.ParseFloat(sa, 64)
+			fb, eb := strconv.ParseFloat(sb, 64)
+			return ea == nil && eb == nil && fa == fb
+		}
+	}
 	return canon.Same(a, b)
 }
 
@@ -616,7 +624,7 @@ func drawCase(t *rapid.T) Case {
 		Ptr:    rapid.Bool().Draw(t, "ptr"),
 	}
 	if rapid.IntRange(0, 4).Draw(t, "named") == 0 {
-		cs.Named = rapid.IntRange(1, 12).Draw(t, "catalogue")
+		cs.Named = rapid.IntRange(1, tyx.CatalogueSize).Draw(t, "catalogue")
 		return cs
 	}
 	cs.Type = tyx.DrawType(t, 2)
